@@ -14,8 +14,8 @@
   are EXACTLY the model's `pollTrace s coarse reply tReply tGrace phc` (clock read of id 6 =
   CLOCK_MONOTONIC_COARSE, query with request `Tracking`, `Instant` reads, sysfs read with its path, the send
   to `ChannelId::ShmWriter` with the message, the wait with the sleep time), one input is consumed per event,
-  the new `last_tracking_data` is `(pollStep ..).1.lastGood`, `keep_running` is false iff the mailbox
-  returned `Ok(ThreadAbort)`, all other variables are unchanged; where the model's message is `panic`
+  the new `last_tracking_data` is `(pollStep ..).1.lastGood`, the loop is over iff the mailbox
+  returned `Ok(ThreadAbort)` and otherwise goes on from the top state with the new poller state; where the model's message is `panic`
   (`expect` on an unparsable / out-of-range sysfs value) the thread panics.
   `default_eq` (`Poller.init`), `grace_eq` (`withinGrace`, strict `<` 5 s).
   `iteration_send_fails`: the same iteration with `send` returning `Err`: the thread panics.
